@@ -295,6 +295,17 @@ def catalogue():
     add('drop_fluff', 'sk', lambda x, p, i: navis.drop_fluff(x, **kw(i)))
     add('TreeNeuron.prune_distal_to', 'sk', lambda x, p, i: x.prune_distal_to(p['n'], **kw(i)), lambda x, rng: dict(n=pick(rng, nonroot(x))), lists=False)
     add('TreeNeuron.prune_proximal_to', 'sk', lambda x, p, i: x.prune_proximal_to(p['n'], **kw(i)), lambda x, rng: dict(n=pick(rng, nonroot(x))), lists=False)
+    # several cut nodes at once (the in-place run and the copy must apply ALL of them)
+    multi = lambda x, rng: dict(n=sorted(set(pick(rng, nonroot(x)) for _ in range(3))))
+    add('TreeNeuron.prune_distal_to(several)', 'sk', lambda x, p, i: x.prune_distal_to(p['n'], **kw(i)), multi, lists=False)
+    add('TreeNeuron.prune_proximal_to(several)', 'sk', lambda x, p, i: x.prune_proximal_to(p['n'], **kw(i)), multi, lists=False)
+    add('cut_skeleton(several)', 'sk', lambda x, p, i: navis.cut_skeleton(x, p['n']), multi, inplace=False, lists=False)
+    add('reroot_skeleton(several)', 'sk', lambda x, p, i: navis.reroot_skeleton(x, p['n'], **kw(i)), multi, lists=False)
+    # analyses of MESHES with connectors (run on an internal skeleton): the mesh and its connector table stay as they were
+    add('synapse_flow_centrality(mesh)', 'me', lambda x, p, i: navis.synapse_flow_centrality(x), inplace=False, annot=['synapse_flow_centrality'])
+    add('flow_centrality(mesh)', 'me', lambda x, p, i: navis.flow_centrality(x), inplace=False, annot=['flow_centrality'])
+    add('bending_flow(mesh)', 'me', lambda x, p, i: navis.bending_flow(x), inplace=False, annot=['bending_flow'])
+    add('strahler_index(mesh)', 'me', lambda x, p, i: navis.strahler_index(x), inplace=False, annot=['strahler_index'])
     add('in_volume(neuron)', ('sk', 'dp', 'me'), lambda x, p, i: navis.in_volume(x, p['v'], **kw(i)), lambda x, rng: dict(v=_box_around(x)))
     add('TreeNeuron.prune_by_volume', 'sk', lambda x, p, i: x.prune_by_volume(p['v'], **kw(i)), lambda x, rng: dict(v=_box_around(x)))
     add('convert_units', ('sk', 'me', 'dp'), lambda x, p, i: x.convert_units('um', **kw(i)))
